@@ -35,9 +35,15 @@
     and callees (Lemmas/HeapSafeDefs.lean: nothing hand-written).  Proved under the documented extents: `reversePermutation`
     (all four branches), one batch of butterflies, `NTT_iters` (any `nphase`), `NTT` and `INTT` (ANY `nblock`, with or
     without caller buffer, in place or not), the destructor, and constructor + `NTT` without any hypothesis about the object
-    (`C18_generated_inbounds_*`).  NOT proved: `.Safe` of the constructor's own table-filling loops, of `computeR` and of
-    `extendPol` (their predicates exist: `NTT_ctor.Safe`, `NTT_computeR.Safe`, `NTT_extendPol.Safe`), size 1 (`parcpy` path),
-    log2 n > 30; pointer arithmetic that leaves a block without an access (`&buffer[k]` alone) is not a condition.
+    (`C18_generated_inbounds_*`).  Second round (Lemmas/HeapSafeComputeR / CtorLoops / Size1 / NttAll / Extend / Hist.lean):
+    the constructor's own table loops for EVERY argument and heap (`…_inbounds_ctor`: no hypothesis; 1 ≤ s ≤ 32 is an
+    invariant of the translated loop that counts `s`), `computeR` (`…_inbounds_computeR`), `parcpy` and size 1 of
+    `NTT_iters` / `NTT` / `INTT` (`…_inbounds_parcpy`, `…_NTT_iters_all`, `…_NTT_all`, `…_INTT_all`), `extendPol` in all three
+    cache states, with or without caller buffer, in place or not (`…_inbounds_extendPol`, `…_extendPol_state`), and whole
+    histories constructor → any documented calls → destructor (`…_inbounds_history`).
+    NOT proved: log2 n > 30; direct `NTT` / `INTT` calls with `extend = true` inside a history (the flag is internal to
+    `extendPol`); buffers that are distinct ranges of ONE block; pointer arithmetic that leaves a block without an access
+    (`&buffer[k]` alone) is not a condition.
 -/
 import GoldilocksVerif.Lemmas.NttAllocL
 import GoldilocksVerif.Props.C17
@@ -45,6 +51,7 @@ import GoldilocksVerif.Props.C08
 import GoldilocksVerif.Lemmas.HeapSafeOwn
 import GoldilocksVerif.Lemmas.HeapSafeCtor
 import GoldilocksVerif.Lemmas.HeapSafeDtor
+import GoldilocksVerif.Lemmas.HeapSafeHist
 
 namespace GoldilocksVerif.C18
 open GoldilocksVerif GoldilocksVerif.NttAlloc
@@ -307,6 +314,161 @@ example : NTT_NTT_iters_loop1.Safe ⟨1, 0⟩ 0#64 2#64 1#64 1 ⟨#[#[], Array.r
   · decide
   · intro h
     exact absurd h.2.1 (by decide)
+
+
+/-! ### in-bounds accesses, second round: the constructor itself, `computeR`, size 1, `extendPol`, whole histories -/
+
+/-- **the constructor**: `roots = malloc(nRoots·8)`, `powTwoInv = malloc((s+1)·8)`, the stores `roots[0]`, `powTwoInv[0]`,
+    `roots[1]`, `powTwoInv[1]`, the loop `roots[i] = roots[i-1]·roots[1]` (2 ≤ i < nRoots), the read `roots[nRoots-1]` of the
+    assert, the loop `powTwoInv[i] = powTwoInv[i-1]·powTwoInv[1]` (2 ≤ i ≤ s; every state the `while` reaches) — for EVERY heap,
+    member state, `maxDomainSize`, thread count, extension and fuel.  No hypothesis: that 1 ≤ s ≤ 32 (so `1 << s` does not
+    wrap and `powTwoInv` has two words) is proved as an invariant of the translated loop that counts `s` -/
+theorem C18_generated_inbounds_ctor (fuel : Nat) (hp : Heap) (self : NTT_Goldilocks) (maxDomainSize : BitVec 64)
+    (nThreads : BitVec 32) (extension : Int) : NTT_ctor.Safe fuel hp self maxDomainSize nThreads extension :=
+  ctor_safe fuel hp self maxDomainSize nThreads extension
+
+/-- the derived predicate of the table loop is not trivially true: with `roots` a block of 4 words, iteration 3 is in
+    bounds and iteration 4 (one past `nRoots`) is not -/
+example : NTT_ctor_loop3.Safe { NTT_Goldilocks.init with roots := ⟨1, 0⟩ } 3 ⟨#[#[], Array.replicate 4 0#64]⟩ ∧
+    ¬ NTT_ctor_loop3.Safe { NTT_Goldilocks.init with roots := ⟨1, 0⟩ } 4 ⟨#[#[], Array.replicate 4 0#64]⟩ := by
+  unfold NTT_ctor_loop3.Safe
+  constructor
+  · decide
+  · intro h
+    exact absurd h.2 (by decide)
+
+/-- **`computeR(N)`**, 1 ≤ N < 2^31 (an `int`), on an object whose `powTwoInv` table has the s + 1 words the constructor gave
+    it and that was built for a domain of at least N points (log2 N ≤ s): `r = new Element[N]`, `r_ = new Element[N]`,
+    `r[0]`, `r_[0] = powTwoInv[log2 N]`, the loop `r[i] = r[i-1]·shift; r_[i] = r[i]·powTwoInv[log2 N]` (1 ≤ i < N) -/
+theorem C18_generated_inbounds_computeR (fuel : Nat) (hf : 64 ≤ fuel) (hp : Heap) (self : NTT_Goldilocks) (N : Nat)
+    (hN1 : 1 ≤ N) (hN31 : N < 2 ^ 31) (hlog : Model.Ntt.log2 N ≤ self.s.toNat)
+    (hpti : self.powTwoInv.off + self.s.toNat + 1 ≤ hp.ext self.powTwoInv.blk) :
+    NTT_computeR.Safe fuel hp self (N : Int) :=
+  computeR_safe fuel hf hp self N hN1 hN31 hlog hpti
+
+/-- the hypotheses hold on a concrete state: s = 2, `powTwoInv` a block of 3 words, N = 4 -/
+example : NTT_computeR.Safe 64 ⟨#[#[], Array.replicate 3 0#64]⟩ { NTT_Goldilocks.init with s := 2#32, powTwoInv := ⟨1, 0⟩ }
+    ((4 : Nat) : Int) :=
+  C18_generated_inbounds_computeR 64 (by decide) _ _ 4 (by decide) (by decide) (by decide) (by decide)
+
+/-- `Goldilocks::parcpy(dst, src, n, nt)` (called by `NTT_iters` for size 1): two distinct blocks with n words from the
+    pointers, any `int` thread count (≤ 0 included): every chunk `memcpy` of every state the `while` loop reaches -/
+theorem C18_generated_inbounds_parcpy (fuel : Nat) (hp : Heap) (dst src : Ptr) (n : Nat) (nt : Int) (hn8 : n * 8 < 2 ^ 64)
+    (hnt : nt < 2 ^ 63) (hd : dst.off + n ≤ hp.ext dst.blk) (hsr : src.off + n ≤ hp.ext src.blk) (hne : dst.blk ≠ src.blk) :
+    parcpy.Safe fuel hp dst src (BridgeNtt.bv n) nt :=
+  parcpy_safe fuel hp dst src n nt hn8 hnt hd hsr hne
+
+example : parcpy.Safe 64 ⟨#[#[], Array.replicate 5 0#64, Array.replicate 5 0#64]⟩ ⟨1, 0⟩ ⟨2, 0⟩ (BridgeNtt.bv 5) 2 :=
+  C18_generated_inbounds_parcpy 64 _ _ _ 5 2 (by decide) (by decide) (by decide) (by decide) (by decide)
+
+/-- `NTT_iters` for EVERY size 1 ≤ 2^K ≤ 2^30 (size 1: one phase, `reversePermutation` into `aux`, the pass loop is not
+    entered, `parcpy(dst_, aux, ncols, nThreads)`) -/
+theorem C18_generated_inbounds_NTT_iters_all (fuel : Nat) (hf : 64 ≤ fuel) (hp : Heap) (self : NTT_Goldilocks) (dst src aux : Ptr)
+    (N NC K : Nat) (offset_cols ncols_all nphase : BitVec 64) (inverse extend : Bool) (hs : 0 < hp.size)
+    (sh : IShape hp self (if (dst != Ptr.null) = true then dst else src) aux N NC K extend)
+    (hNC : 0 < NC) (hcols : offset_cols.toNat + NC ≤ ncols_all.toNat) (hbytes : N * ncols_all.toNat * 8 < 2 ^ 64)
+    (hsrc : src.off + srcRows self (BridgeNtt.bv N) * ncols_all.toNat ≤ hp.ext src.blk)
+    (hd1 : (if (dst != Ptr.null) = true then dst else src) ≠ src →
+      (if (dst != Ptr.null) = true then dst else src).blk ≠ src.blk)
+    (hd2 : aux.blk ≠ src.blk) :
+    NTT_NTT_iters.Safe fuel hp self dst src (BridgeNtt.bv N) offset_cols (BridgeNtt.bv NC) ncols_all nphase aux inverse extend :=
+  NTT_iters_safe_all fuel hf hp self dst src aux N NC K offset_cols ncols_all nphase inverse extend hs sh hNC hcols hbytes hsrc
+    hd1 hd2
+
+/-- the extents of a size-1 `NTT_iters`: destination and `aux` two blocks of one row of 3 words, s = 1 -/
+example : IShape ⟨#[#[], Array.replicate 3 0#64, Array.replicate 3 0#64, Array.replicate 2 0#64, Array.replicate 2 0#64]⟩
+    { NTT_Goldilocks.init with s := 1#32, roots := ⟨3, 0⟩, powTwoInv := ⟨4, 0⟩ } ⟨1, 0⟩ ⟨2, 0⟩ 1 3 0 false := by
+  constructor <;> decide
+
+/-- **`NTT` / `INTT`, every size 1 ≤ 2^K ≤ 2^30** (`NTTShape0` = `NTTShape` without `1 ≤ K`), every `nblock`, with or without
+    caller buffer, in place or not -/
+theorem C18_generated_inbounds_NTT_all (fuel : Nat) (hf : 64 ≤ fuel) (hp : Heap) (self : NTT_Goldilocks) (dst src buffer : Ptr)
+    (N NC K : Nat) (nphase nblock : BitVec 64) (inverse extend : Bool) (sh : NTTShape0 hp self dst src buffer N NC K extend) :
+    NTT_NTT.Safe fuel hp self dst src (BridgeNtt.bv N) (BridgeNtt.bv NC) buffer nphase nblock inverse extend :=
+  NTT_safe_all fuel hf hp self dst src buffer N NC K nphase nblock inverse extend sh
+
+theorem C18_generated_inbounds_INTT_all (fuel : Nat) (hf : 64 ≤ fuel) (hp : Heap) (self : NTT_Goldilocks) (dst src buffer : Ptr)
+    (N NC K : Nat) (nphase nblock : BitVec 64) (extend : Bool) (sh : NTTShape0 hp self dst src buffer N NC K extend) :
+    NTT_INTT.Safe fuel hp self dst src (BridgeNtt.bv N) (BridgeNtt.bv NC) buffer nphase nblock extend :=
+  INTT_safe_all fuel hf hp self dst src buffer N NC K nphase nblock extend sh
+
+/-- a size-1 call shape: one row of 3 words transformed in place (`dst == NULL`), no caller buffer, s = 1 -/
+example : NTTShape0 ⟨#[#[], Array.replicate 3 0#64, Array.replicate 2 0#64, Array.replicate 2 0#64]⟩
+    { NTT_Goldilocks.init with s := 1#32, roots := ⟨2, 0⟩, powTwoInv := ⟨3, 0⟩ } Ptr.null ⟨1, 0⟩ Ptr.null 1 3 0 false := by
+  constructor <;> decide
+
+/-- **`extendPol`** on buffers of the documented extents (`EPShape`: `N = 2^dn ≤ N_Extended = 2^de ≤ 2^30`, `output` of
+    N_Extended·ncols words, `input` of N·ncols words — the same pointer or another block —, a caller buffer of
+    N_Extended·ncols words in a third block, an object built for at least N points, its cache absent or two live blocks
+    of its own with `r_` of `r_N` words): the constructor of the local object, the scratch allocation, the cache refresh
+    (both `delete[]`s, `computeR`) in all three cache states, `INTT(…, extend = true)` (reads `r_[0 … N)`), the in-place `NTT` of
+    the local object (zero fill of the extension), `free(tmp)`, the destructor of the local object — every `nblock` -/
+theorem C18_generated_inbounds_extendPol (fuel : Nat) (hf : 64 ≤ fuel) (hp : Heap) (self : NTT_Goldilocks)
+    (output input buffer : Ptr) (N N_Extended NC dn de : Nat) (nphase nblock : BitVec 64)
+    (sh : EPShape hp self output input buffer N N_Extended NC dn de) :
+    NTT_extendPol.Safe fuel hp self output input (BridgeNtt.bv N_Extended) (BridgeNtt.bv N) (BridgeNtt.bv NC) buffer nphase nblock :=
+  extendPol_safe fuel hf hp self output input buffer N N_Extended NC dn de nphase nblock sh
+
+/-- the shape holds on a concrete state, cache absent: N = 2, N_Extended = 4, 2 columns, `output` (8 words) and `input`
+    (4 words) two blocks, no caller buffer, the object's tables for s = 2 -/
+example : EPShape ⟨#[#[], Array.replicate 8 0#64, Array.replicate 4 0#64, Array.replicate 4 0#64, Array.replicate 3 0#64]⟩
+    { NTT_Goldilocks.init with s := 2#32, roots := ⟨3, 0⟩, powTwoInv := ⟨4, 0⟩ } ⟨1, 0⟩ ⟨2, 0⟩ Ptr.null 2 4 2 1 2 := by
+  refine ⟨by decide, by decide, by decide, by decide, by decide, by decide, by decide, by decide, by decide, by decide, by decide,
+    by decide, by decide, by decide, by decide, fun h => absurd rfl h⟩
+
+/-- … and with a cache that is present and valid (`r`, `r_`: blocks 5 and 6 of 2 words, `r_N = 2`), a caller buffer (block 7) -/
+example : EPShape ⟨#[#[], Array.replicate 8 0#64, Array.replicate 4 0#64, Array.replicate 4 0#64, Array.replicate 3 0#64,
+      Array.replicate 2 0#64, Array.replicate 2 0#64, Array.replicate 8 0#64]⟩
+    { NTT_Goldilocks.init with s := 2#32, roots := ⟨3, 0⟩, powTwoInv := ⟨4, 0⟩, r := ⟨5, 0⟩, r_ := ⟨6, 0⟩, r_N := 2#64 }
+    ⟨1, 0⟩ ⟨2, 0⟩ ⟨7, 0⟩ 2 4 2 1 2 := by
+  refine ⟨by decide, by decide, by decide, by decide, by decide, by decide, by decide, by decide, by decide, by decide, by decide,
+    by decide, by decide, by decide, by decide, fun _ => ⟨by decide, by decide, by decide, by decide, by decide, ?_, by decide⟩⟩
+  rintro b (rfl | rfl | ⟨_, rfl⟩ | rfl | rfl) <;> decide
+
+/-- **the state `extendPol` leaves** (what makes the next call's hypotheses available): every block that was live and is
+    not a block of the old cache keeps its extent (the local object's tables and the scratch buffer are released), the
+    object's tables are the same, its cache is present, valid for `N` (`r_N = N`, `r_` of `N` words) and consists of two
+    live blocks of its own -/
+theorem C18_generated_extendPol_state (fuel : Nat) (hf : 64 ≤ fuel) (hp : Heap) (self : NTT_Goldilocks) (output input buffer : Ptr)
+    (N N_Extended NC dn de : Nat) (nphase nblock : BitVec 64) (sh : EPShape hp self output input buffer N N_Extended NC dn de)
+    (r : Heap × NTT_Goldilocks)
+    (h : NTT_extendPol fuel hp self output input (BridgeNtt.bv N_Extended) (BridgeNtt.bv N) (BridgeNtt.bv NC) buffer nphase nblock
+      = some r) :
+    (∀ b, EPOld hp self b → r.1.ext b = hp.ext b) ∧
+    (r.2.s = self.s ∧ r.2.roots = self.roots ∧ r.2.powTwoInv = self.powTwoInv ∧ r.2.extension = self.extension ∧
+      r.2.nThreads = self.nThreads) ∧
+    CacheInv r.1 r.2 (EPOld hp self) ∧ r.2.r ≠ Ptr.null ∧ r.2.r_N = BridgeNtt.bv N :=
+  extendPol_post fuel hf hp self output input buffer N N_Extended NC dn de nphase nblock sh r h
+
+/-- **IN-BOUNDS ACCESSES OF A WHOLE OBJECT LIFE** (`life.Safe`: the derived predicates along the history, each on the state
+    the history has reached).  The generated constructor (`maxDomainSize ≠ 0`) on the default-initialised members in any
+    heap that has its NULL block, any list of `NTT` / `INTT` / `extendPol` calls whose arguments satisfy the documented
+    preconditions (`CallOK`: power-of-two sizes up to the domain the object was built for and 2^30, the caller's buffers
+    are blocks that exist before the construction and have the documented extents — `BufOK`, `EPBuf` —, `extend = false`
+    in direct transforms), the generated destructor: every get / set, every `memcpy` / `memset` range, every release of the
+    whole history is in bounds — the extents of the tables and of the cache at each call come from the invariant `HS`
+    (constructor: `ctor_tables`; `NTT` / `INTT`: allocation balance; `extendPol`: `C18_generated_extendPol_state`) -/
+theorem C18_generated_inbounds_history (fuel : Nat) (hf : 64 ≤ fuel) (h0 : Heap) (hpos : 0 < h0.size) (maxDomainSize : BitVec 64)
+    (nThreads : BitVec 32) (extension : Nat) (hm0 : maxDomainSize ≠ 0#64) (cs : List HeapSafe.Call)
+    (hok : ∀ c, c ∈ cs → CallOK h0 (Model.Ntt.log2 maxDomainSize.toNat) c) :
+    life.Safe fuel h0 maxDomainSize nThreads (extension : Int) cs :=
+  life_safe fuel hf h0 hpos maxDomainSize nThreads extension hm0 cs hok
+
+/-- a concrete history with documented arguments: an object for 4 points; `extendPol` 2 → 4 (builds the cache), `extendPol`
+    1 → 2 in place with the third block as caller buffer (replaces the cache), a size-1 `NTT`, an in-place `INTT` of size 4 -/
+example : ∀ c, c ∈ [HeapSafe.Call.extendPol ⟨1, 0⟩ ⟨2, 0⟩ (BridgeNtt.bv 4) (BridgeNtt.bv 2) (BridgeNtt.bv 2) Ptr.null 3#64 1#64,
+      HeapSafe.Call.extendPol ⟨1, 0⟩ ⟨1, 0⟩ (BridgeNtt.bv 2) (BridgeNtt.bv 1) (BridgeNtt.bv 2) ⟨3, 0⟩ 0#64 2#64,
+      HeapSafe.Call.ntt ⟨1, 0⟩ ⟨2, 0⟩ (BridgeNtt.bv 1) (BridgeNtt.bv 4) Ptr.null 3#64 1#64 false false,
+      HeapSafe.Call.intt Ptr.null ⟨1, 0⟩ (BridgeNtt.bv 4) (BridgeNtt.bv 2) ⟨3, 0⟩ 3#64 5#64 false] →
+    CallOK ⟨#[#[], Array.replicate 8 0#64, Array.replicate 4 0#64, Array.replicate 8 0#64]⟩
+      (Model.Ntt.log2 (4#64 : BitVec 64).toNat) c := by
+  intro c hc
+  simp only [List.mem_cons, List.not_mem_nil, or_false] at hc
+  rcases hc with rfl | rfl | rfl | rfl
+  · exact ⟨2, 4, 2, 1, 2, rfl, rfl, rfl, by decide, by constructor <;> decide⟩
+  · exact ⟨1, 2, 2, 0, 1, rfl, rfl, rfl, by decide, by constructor <;> decide⟩
+  · exact ⟨rfl, 1, 4, 0, rfl, rfl, by decide, by constructor <;> decide⟩
+  · exact ⟨rfl, 4, 2, 2, rfl, rfl, by decide, by constructor <;> decide⟩
 
 end generated
 
